@@ -11,6 +11,17 @@
       for an invite the sender's server is the one whose signature is verified.
     * "local user" (authoriser of a restricted join): locality is the querier's contract
       (RestrictedRoomJoinInfo.JoinedUsers lists this server's users); the handler sees user IDs only.
+    * HandleMakeJoin / HandleMakeLeave are handed BOTH names of the user: `UserID` (whose domain is compared with the
+      requesting server) and `SenderID` (the sender and state key of the template).  That the two name the same user is the
+      CALLER's contract, recorded here and not demanded of the handlers: their inputs carry no sender-ID querier to derive
+      one from the other (in rooms with pseudo IDs the relation lives in the caller's database), and nothing is gained by a
+      caller that breaks it — the template's sender must be a member allowed to join by the auth check that follows, and the
+      send_join that completes the handshake is only accepted from the server the SENDER belongs to
+      (`sendJoinGuards`: `senderDomain == requestOrigin`).  The harness always passes `SenderID = UserID.String()`.
+    * "the resulting event passes the auth rules": the auth check runs on the event the caller's template builder made of
+      the proto event, and the PROTO event is what is returned.  The harness ties the two: the proto event returned must be
+      the one the template builder was shown (same type, sender, state key, room, content; outcome
+      `ok-proto-not-the-checked-one` otherwise), and the builder builds from nothing else.
 -/
 import VModel.Handshake
 namespace V.Handshake.Spec
@@ -30,7 +41,7 @@ def sendJoinGuards (i : SendJoinIn) : Bool :=
   && i.stateKey == some i.sender                             -- whose sender equals its state key
   && i.eventRoomID == i.roomID                               -- whose room matches the request
   && i.eventID == i.reqEventID                               -- whose event ID matches the request
-  && i.senderDomain == some i.requestOrigin                  -- whose sender belongs to the requesting server
+  && i.senderDomain == .dom i.requestOrigin                  -- whose sender belongs to the requesting server (a user ID was found)
   && i.verify == .good                                       -- which that server has validly signed
   && i.curMembership != some b!"ban"                         -- whose target is not banned
   && (i.authorisedVia.isEmpty || i.userID i.authorisedVia == some i.localServer)   -- whose authorising user is local
@@ -105,11 +116,44 @@ def makeLeaveGuards (i : MakeLeaveIn) : Bool :=
 
 /-! ### HandleInvite -/
 
+/-- the user-ID querier found a user for the sender -/
+def senderKnown (a : SenderAns) : Bool :=
+  match a with
+  | .dom _ => true
+  | _ => false
+
+/-- the room is known to this server -/
+def roomKnown (i : InviteIn) : Bool :=
+  match i.knownRoom with
+  | .ans true => true
+  | _ => false
+
+/-- "whose target is … already joined (invite)".  The TARGET of an invite event is its STATE KEY — not whichever user the
+    caller names in `InvitedUser` / `InvitedSenderID` beside the event: `membershipOf` is asked about the event's own state
+    key.  (Until round 5 the model carried one scripted answer, "the membership of the invited sender ID", the harness
+    scripted it for the user it passed in, and the handler asked about that user: an invite FOR @bob:local, joined, handed
+    over as an invite for @carol:local was counter-signed.)
+
+    DECISION (H7) on `roomKnown`.  The conjunct stays, and it is part of the specification, not a mirror of the code.  The
+    property speaks of a target that is "already joined" and lists, among the querier answers it quantifies over,
+    "memberships" AND "resident rooms": membership is a fact of the room state THIS server holds.  A room this server does
+    not know (`IsKnownRoom` = false — typically the very first contact with the room is this invite) has no local state,
+    hence no local user can be joined to it in the sense of the property; an answer "join" of the membership querier for
+    such a room contradicts the room querier's own answer, and the property's "only if" does not oblige the handler to
+    believe the second answer over the first.  Reading the clause without the conjunct would make HandleInvite refuse
+    invites on the strength of membership data for rooms it has no data about.  So: already joined := the room is known
+    AND the target's current membership there is `join`. -/
+def inviteTargetJoined (i : InviteIn) : Bool :=
+  roomKnown i &&
+  (match i.stateKey with
+   | some target => i.membershipOf target == some b!"join"
+   | none => false)
+
 def inviteGuards (i : InviteIn) : Bool :=
   i.eventType == b!"m.room.member" && i.membership == some b!"invite"   -- it is an invite
   && i.eventRoomID == i.roomID                               -- whose room matches the request
-  && i.senderDomain.isSome && i.verify == .good              -- which the sender's server has validly signed
-  && !((match i.knownRoom with | .ans true => true | _ => false) && i.curMembership == some b!"join")  -- target not already joined
+  && senderKnown i.senderDomain && i.verify == .good         -- which the sender's server has validly signed
+  && !inviteTargetJoined i                                   -- whose target (its state key) is not already joined
 
 /-! ### HandleInviteV3
 
@@ -119,9 +163,38 @@ def inviteGuards (i : InviteIn) : Bool :=
   target is not already joined.  (Until round 4 no guard predicate existed for this handler — "C15 speaks of HandleInvite" —
   although the property's anchors name HandleInviteV3; the handler signed any proto event.) -/
 
+/-- the target of the invite HandleInviteV3 builds: the state key it gives the event, i.e. the sender ID
+    `GetOrCreateSenderID` answered with — whatever `InvitedSenderID` the caller put into the input -/
+def inviteV3TargetJoined (i : InviteV3In) : Bool :=
+  roomKnown i.common &&
+  (match i.invitedSenderID with
+   | some target => i.common.membershipOf target == some b!"join"
+   | none => false)
+
 def inviteV3Guards (i : InviteV3In) : Bool :=
   i.protoType == b!"m.room.member" && i.protoMembership == some b!"invite"   -- it is an invite
   && i.protoRoomID == i.common.roomID                                          -- whose room matches the request
-  && !((match i.common.knownRoom with | .ans true => true | _ => false) && i.common.curMembership == some b!"join")  -- target not already joined
+  && !inviteV3TargetJoined i                                                   -- whose target is not already joined
+
+/-! ### PerformJoin: the event that comes back
+
+  "PerformJoin returns a join": the JoinEvent of the response is the join THIS server made for the joining user — the
+  property's other clauses (state passes the federation-response checks, create event of a known version) are about the
+  state that comes with it.  Written from that sentence, not from `isWellFormedJoinMemberEvent`: the event returned is the
+  event that was built and signed here, or an event the resident server sent back in its place that is an `m.room.member`
+  event, of the room, with membership `join`, sent by the joining user with the joining user as state key, and that carries a
+  valid signature of the joining user's own server — which only this server can have made, so that its redacted form is that
+  of a join this server signed (the resident server may add its own signature and an unsigned section, nothing else).
+  (Until round 5 `performJoin_ok_implies` said no more than "the event returned is `joinEventUsed`", and the driver decided
+  with the code's own predicate which event that is.)
+
+  Residue, stated: in `org.matrix.msc4014` the signature is that of the user's room key and `isSignedJoinEvent` does not
+  check it (the repository's TestPerformJoinPseudoID answers send_join with a join signed by another key and expects it
+  back); `joinEventOK` therefore fails there for a forged copy — a finding, not a theorem (`performJoinPseudo…`). -/
+
+def joinEventOK {P} (i : PerformJoinIn P) (e : Event) : Prop :=
+  e = i.built ∨
+  ∃ r, i.remote = some r ∧ e = r.ev ∧ r.type = b!"m.room.member" ∧ r.membership = some b!"join" ∧ r.roomID = i.roomID ∧
+    r.sender = i.senderID ∧ r.stateKey = some i.senderID ∧ (i.pseudoIDs = false → r.sigOK = true)
 
 end V.Handshake.Spec
